@@ -453,6 +453,8 @@ def drive(ctx, clauses, nproc=None):
     tasks = []
     for ci, cl in enumerate(clauses):
         total = cl.quick if ctx.tier == 'quick' else cl.thorough
+        if total <= 0:
+            continue          # a clause of the other tier only
         shards = cl.quick_shards if ctx.tier == 'quick' else cl.thorough_shards
         shards = max(1, min(shards, total))
         per = -(-total // shards)
